@@ -78,9 +78,14 @@ def case(draw, tier="quick"):
     ns = draw(st.integers(1, 4))
     ladder = draw(st.sampled_from(["CLASSIC", "CLASSIC", "FINEST", "LINE_RANGE"]))
     sels = []
+    shared = draw(st.integers(0, 3)) == 0  # handicap market: the same selection id on several lines
     for i in range(ns):
         n = draw(st.integers(0 if i else 1, maxo))
-        sels.append({"sel": 1001 + i, "hc": draw(st.sampled_from([0, 0, 0, 1.5])), "orders": [draw(order_spec(ladder)) for _ in range(n)]})
+        if shared:
+            sel, hc = 1001 + (i % 2), [0, 1.5, -1.5, 2.5][i]
+        else:
+            sel, hc = 1001 + i, draw(st.sampled_from([0, 0, 0, 1.5]))
+        sels.append({"sel": sel, "hc": hc, "orders": [draw(order_spec(ladder)) for _ in range(n)]})
     other = [draw(order_spec(ladder)) for _ in range(draw(st.integers(0, 2)))]
     return {"ladder": ladder, "sels": sels, "other": other, "n_active": ns + draw(st.integers(0, 3)),
             "n_winners": draw(st.integers(1, 3)), "live": draw(st.integers(0, 3)) == 0,
